@@ -568,6 +568,109 @@ struct ODoc {
     b: Vec<String>,
 }
 
+#[derive(Debug, Deserialize)]
+struct MInner<'a> {
+    #[serde(borrow)]
+    a: &'a str,
+    #[allow(dead_code)]
+    x: i32,
+}
+#[derive(Debug, Deserialize)]
+struct MDoc<'a> {
+    #[serde(borrow)]
+    obj: MInner<'a>,
+}
+#[derive(Debug, Deserialize)]
+enum TagV<'a> {
+    #[serde(borrow)]
+    V(&'a str),
+}
+#[derive(Debug, Deserialize)]
+struct FInner<'a> {
+    #[serde(borrow)]
+    a: &'a str,
+}
+#[derive(Debug, Deserialize)]
+struct FDoc<'a> {
+    #[serde(flatten, borrow)]
+    inner: FInner<'a>,
+}
+
+/// Fixed probes of the borrow clause: (text, what it is, must lend?). A verbatim scalar is lent wherever it
+/// stands - behind a merge key (replayed from the anchor's buffer), as the payload of a tag-selected variant, as a
+/// mapping key, through serde's own buffering for flattened and untagged types; a scalar whose text differs from
+/// what stands in the input is refused, also when the two agree in their first characters.
+fn borrow_probes(st: &mut Stats) -> Vec<(String, String)> {
+    let mut out = Vec::new();
+    let mut lend = |name: &str, text: &str, got: Result<Option<&str>, String>, st: &mut Stats| {
+        st.evals += 1;
+        st.bump("borrow_probe");
+        match got {
+            Ok(Some(x)) if within(text, x) => {}
+            Ok(Some(x)) => out.push(("borrowed-not-from-input".to_string(), format!("{name} ({text:?}): {x:?} does not point into the input"))),
+            Ok(None) => out.push(("borrow-refused-verbatim".to_string(), format!("{name} ({text:?}): not the shape expected"))),
+            Err(e) => out.push(("borrow-refused-verbatim".to_string(), format!("{name} ({text:?}): the text stands in the input verbatim, the borrowed target fails with {e}"))),
+        }
+    };
+    let kind = |e: serde_saphyr::Error| lab::err_info(&e).kind;
+    {
+        let t = String::from("base: &b\n  a: |-\n    hello\n  x: 2\nobj:\n  <<: *b\n  x: 1\n");
+        if let Ok(r) = guard(|| serde_saphyr::from_str::<MDoc>(&t)) {
+            lend("block scalar behind a merge key", &t, r.map(|d| Some(d.obj.a)).map_err(kind), st);
+        }
+        let t = String::from("base: &b {a: plain text, x: 2}\nobj:\n  <<: *b\n  x: 1\n");
+        if let Ok(r) = guard(|| serde_saphyr::from_str::<MDoc>(&t)) {
+            lend("plain scalar behind a merge key", &t, r.map(|d| Some(d.obj.a)).map_err(kind), st);
+        }
+        let t = String::from("!V |-\n  hello\n");
+        if let Ok(r) = guard(|| serde_saphyr::from_str::<TagV>(&t)) {
+            lend("block scalar as payload of a tag-selected variant", &t, r.map(|TagV::V(x)| Some(x)).map_err(kind), st);
+        }
+        let t = String::from("m:\n  ? |-\n    key\n  : v\n");
+        if let Ok(r) = guard(|| serde_saphyr::from_str::<KDoc>(&t)) {
+            lend("block scalar as mapping key", &t, r.map(|d| d.m.keys().next().copied()).map_err(kind), st);
+        }
+        for t in ["a: |-\n  hello\n", "a: hello there\n", "a: .inf\n", "a: -.inf\n", "a: .nan\n"] {
+            let t = String::from(t);
+            if let Ok(r) = guard(|| serde_saphyr::from_str::<FDoc>(&t)) {
+                lend("verbatim scalar into a flattened &str field", &t, r.map(|d| Some(d.inner.a)).map_err(kind), st);
+            }
+        }
+        let t = String::from("a: |-\n  hello\n");
+        if let Ok(r) = guard(|| serde_saphyr::from_str::<UDoc>(&t)) {
+            lend(
+                "block scalar into an untagged enum holding &str",
+                &t,
+                r.map(|d| if let UB::S(x) = d.a { Some(x) } else { None }).map_err(kind),
+                st,
+            );
+        }
+    }
+    // quoted scalars whose unescaped text starts with their own quote character: the text differs from what
+    // stands in the input (an escape, a doubled quote), a borrowed target is refused
+    for t in ["\"\\\"\"", "''''", "\"\\\"\\\\\"", "''''''", "\"\\\"x\"", "'''x'"] {
+        let t = String::from(t);
+        let owned = guard(|| serde_saphyr::from_str::<String>(&t));
+        let borrowed = guard(|| serde_saphyr::from_str::<&str>(&t));
+        st.evals += 2;
+        st.bump("borrow_probe");
+        if let (Ok(Ok(o)), Ok(b)) = (owned, borrowed) {
+            match b {
+                Err(e) if lab::err_info(&e).kind == "CannotBorrowTransformedString" => {}
+                Ok(x) => out.push((
+                    "borrow-accepted-transformed".to_string(),
+                    format!("{t:?} (owned text {o:?}) is written with an escape, yet &str gets {x:?}"),
+                )),
+                Err(e) => out.push((
+                    "borrow-wrong-error".to_string(),
+                    format!("{t:?}: the borrowed target fails with {} instead of the cannot-borrow error", lab::err_info(&e).kind),
+                )),
+            }
+        }
+    }
+    out
+}
+
 fn within(hay: &str, needle: &str) -> bool {
     let h = hay.as_ptr() as usize;
     let n = needle.as_ptr() as usize;
@@ -628,6 +731,11 @@ pub fn exec_borrow(c: &BorrowCase, st: &mut Stats) -> Vec<Viol> {
                 )),
             }
         }
+    }
+    // verbatim scalars that reach the target through a look-ahead buffer or through serde's buffering, and
+    // scalars that only look verbatim
+    for (clause, detail) in borrow_probes(st) {
+        out.push(mk(&clause, detail));
     }
     // Cow<str>: the same answer as String, whichever way the library chooses to hand the text over
     if let Ok(cow) = guard(|| serde_saphyr::from_str::<CDoc>(text)) {
